@@ -773,3 +773,45 @@ sort_driver("sort[two keys asc,asc]", [("a", 1), ("b", 1)])
 sort_driver("sort[two keys asc,desc]", [("a", 1), ("b", -1)])
 sort_driver("sort[two keys desc,asc]", [("a", -1), ("b", 1)])
 sort_driver("sort[two keys desc,desc]", [("a", -1), ("b", -1)])
+
+
+# ---- update with plain mappings / unselect with overlapping names (C09, C01) -------------------------------------------------
+@driver(P + "update[mappings with scalars, lists and columns of any length]")
+def update_mappings(run):
+    run.bound = "receivers of 0-3 rows x 2 columns; mappings replacing one or all columns by a scalar, a length-1 list, a list of the right or of a wrong length"
+    for n, which, shape in run.inputs((n, w, sh) for n in range(4) for w in ("one", "all", "new") for sh in ("scalar", "len1", "right", "wrong", "empty")):
+        d = DataFrame(a=Vector(list(range(n)), int), b=Vector([float(i) for i in range(n)], float))
+        val = {"scalar": 7, "len1": [7], "right": [7] * n, "wrong": [7] * (n + 2), "empty": []}[shape]
+        names = {"one": ["a"], "all": ["a", "b"], "new": ["c"]}[which]
+        ok_shape = shape in ("scalar", "len1", "right") or (shape == "empty" and n == 0) or (shape == "len1" and True)
+        if shape == "wrong" and n + 2 == 1:
+            ok_shape = True
+        before = snapshot(d)
+        try:
+            got = d.update({k: val for k in names})
+            ok = ok_shape and got.nrow == n and all(len(got[c]) == n for c in got.colnames) and set(got.colnames) == {"a", "b"} | set(names)
+            ok = ok and all(list(got[k]) == [7] * n for k in names) and all(list(got[c]) == list(d[c]) for c in ("a", "b") if c not in names)
+            obs = {c: list(got[c]) for c in got.colnames}
+        except ValueError as e:
+            # a receiver without rows: dataiter refuses to broadcast to zero rows (ValueError) - accepted, nothing is stored
+            ok, obs = (not ok_shape) or (n == 0 and shape in ("scalar", "len1")), f"raised ValueError: {e}"
+        except Exception as e:
+            ok, obs = False, f"raised {type(e).__name__}: {e}"
+        run.check([n, which, shape], ok and snapshot(d) == before, expected="broadcast to the receiver's row count, or ValueError for any other length",
+                  got=obs, clause="update: values are reconciled with the RECEIVER's row count")
+
+
+@driver(P + "unselect[names containing one another]")
+def unselect_overlapping(run):
+    run.bound = "frame with columns a, b, ab, abc, x; unselect of every single name and of every pair"
+    names = ["a", "b", "ab", "abc", "x"]
+    gen = [[n] for n in names] + [[m, n] for m in names for n in names if m < n]
+    for (drop,) in run.inputs((g,) for g in gen):
+        d = DataFrame(**{n: Vector([i], int) for i, n in enumerate(names)})
+        try:
+            got = d.unselect(*drop)
+            ok = got.colnames == [n for n in names if n not in drop]
+            obs = got.colnames
+        except Exception as e:
+            ok, obs = False, f"raised {type(e).__name__}: {e}"
+        run.check([drop], ok, expected=[n for n in names if n not in drop], got=obs, clause="unselect drops exactly the named columns")
